@@ -1,5 +1,6 @@
 import Sylvia.Driver.ProgParse
 import Sylvia.Model.EntryPoints
+import Sylvia.Model.Strip
 /-! Driver operations over the current program. -/
 namespace Driver
 open Sylvia Gen
@@ -21,6 +22,26 @@ def opEp (st : State) : String :=
               ("body", .str (epBodyText c k replyFn))]
   (Json.arr fns).render
 
+def attrSOf (j : Json) : Strip.AttrS := { path := (jarr (jget j "path")).map jstr, text := jstr (jget j "text") }
+
+def itemSOf (j : Json) : Strip.ItemS :=
+  { attrs := (jarr (jget j "attrs")).map attrSOf,
+    methods := (jarr (jget j "methods")).map fun m =>
+      { attrs := (jarr (jget m "attrs")).map attrSOf,
+        params := (jarr (jget m "params")).map fun p => { attrs := (jarr (jget p "attrs")).map attrSOf, text := jstr (jget p "text") },
+        rest := jstr (jget m "rest") },
+    rest := "" }
+
+def opStrip (rest : String) : String :=
+  match parseJson rest with
+  | none => "bad-json"
+  | some j =>
+    let i := Strip.strip (itemSOf j)
+    (Json.obj [("attrs", jsonStrList (i.attrs.map (·.text))),
+      ("methods", .arr (i.methods.map fun m => Json.obj [
+        ("name", .str m.rest), ("attrs", jsonStrList (m.attrs.map (·.text))),
+        ("params", .arr (m.params.map fun p => Json.obj [("text", .str p.text), ("attrs", jsonStrList (p.attrs.map (·.text)))]))]))]).render
+
 def step (st : State) (line : String) : State × Option String :=
   let (op, rest) := splitOp line
   match op with
@@ -34,6 +55,7 @@ def step (st : State) (line : String) : State × Option String :=
     | none => (st, some "bad-json")
   | "reset" => ({}, some "ok")
   | "ep" => (st, some (opEp st))
+  | "strip" => (st, some (opStrip rest))
   | _ => (st, none)
 
 end Driver
